@@ -150,6 +150,9 @@ def run(check, ctx):
     _c09.ocb_transcrypt_seg(check, ctx.repo, rule="T-seg")
     # the native sponge's life cycle: absorb after squeeze refused, digest does not consume, copies continue alike
     from . import c_keccak
-    c_keccak.keccak_tables(check, ctx, rule="T-c", groups=("copy", "init"))
+    c_keccak.keccak_tables(check, ctx, rule="T-c", groups=("sponge", "copy", "init"))
+    # copies are part of the life cycle: a clone and its original continue separately
+    from . import c19_extra
+    c19_extra.copy_rules(check, ctx.repo)
     check.undecided.append("every permitted sequence yields the one-shot "
                            "ciphertext/plaintext/tag (values)")
